@@ -17,6 +17,7 @@ from harness import dp, bv, projgen
 from harness.refmodel import ref_search, ref_render
 
 from bumpver import v2patterns, v1patterns
+from bumpver import parse as bv_parse
 
 ID = "C07"
 LEVEL = "exploration"
@@ -155,19 +156,54 @@ def viols_for(bad, causes, extra_sig, nt, classes=()):
     return out
 
 
+class _Rx:
+    """the compiled regex plus the matcher bumpver really applies to file lines (parse.iter_matches)"""
+
+    def __init__(self, pat):
+        self.pat = pat
+        self.pattern = pat.regexp.pattern
+
+    def search(self, line):
+        m = self.pat.regexp.search(line)
+        via_regex = m.span() if m and m.end() > m.start() else None
+        found = list(bv_parse.iter_matches([line], [self.pat]))
+        via_lines = tuple(found[0].span) if found else None
+        if via_regex != via_lines:
+            return _Span(via_lines, disagree=(via_regex, via_lines))
+        return _Span(via_regex)
+
+
+class _Span:
+    def __init__(self, span, disagree=None):
+        self._span = span
+        self.disagree = disagree
+
+    def span(self):
+        return self._span
+
+    def start(self):
+        return self._span[0]
+
+    def end(self):
+        return self._span[1]
+
+    def __bool__(self):
+        return self._span is not None
+
+
 def compile_v2(raw):
-    return v2patterns.compile_pattern.__wrapped__("MAJOR.MINOR.PATCH", raw).regexp
+    return _Rx(v2patterns.compile_pattern.__wrapped__("MAJOR.MINOR.PATCH", raw))
 
 
 def compile_v1(raw):
-    return v1patterns.compile_pattern.__wrapped__("{semver}", raw).regexp
+    return _Rx(v1patterns.compile_pattern.__wrapped__("{semver}", raw))
 
 
 def literal_nodes_ok(rx, text):
     """the regex consists of LITERAL nodes spelling the core, AT nodes only at the very ends"""
     start, core, end = split_anchors(text)
     try:
-        items = list(sre_parse.parse(rx.pattern))
+        items = list(sre_parse.parse(rx.pattern))  # rx.pattern: the regex source
     except Exception:
         return False
     if start:
@@ -405,8 +441,8 @@ def wrapped_fail(lits, pidx, legacy):
 def build_c(d):
     l1 = gen_delim(d, 0, 5).replace("'", "!")
     l2 = gen_delim(d, 0, 5).replace("'", "!")
-    if l1[0] in "[^":
-        l1 = "=" + l1
+    if l1[0] in "[^" or l1[:2] in ('""', "''"):
+        l1 = "=" + l1  # (a value starting with two quotes is not expressible with toml 0.10.2)
     return {"lit1": l1, "lit2": l2}
 
 
